@@ -99,6 +99,81 @@ def synthetic_selftest(shipped):
     return cat, recs, want
 
 
+def report(chk, real, sites, cat, neglines, m):
+    """Turns the contract's failing (record, key) pairs into candidate violations."""
+    byid = {s["id"]: s for s in sites}
+    # a systemic failure (one clause failing for very many keys at once, e.g. a broken lookup function) is reported once
+    # per (clause, kind, language) with its size and examples instead of once per key
+    def group_of(key):
+        p_ = key.split("/")
+        if p_[0] == "lookup":
+            return "lookup/%s/*/%s" % (p_[1], p_[-1])
+        if p_[0] == "no-text":
+            return "no-text/%s/*" % p_[1]
+        if p_[0] in ("placeholders", "empty-text"):
+            return "%s/*/%s" % (p_[0], p_[-1])
+        return p_[0] + "/*"
+    groups = {}
+    for b in real:
+        groups.setdefault(group_of(b["key"]), []).append(b)
+    for g, bs in sorted(groups.items()):
+        if len(bs) > MANY:
+            ex_ = sorted(set(b["key"] for b in bs))
+            chk.violation(g, "%d keys fail this clause at once, e.g. %s" % (len(ex_), ex_[:6]),
+                          {"count": len(ex_), "keys": ex_[:200], "first_site": byid.get(sorted(bs, key=lambda b: b["key"])[0]["id"])})
+    real = [b for b in real if len(groups[group_of(b["key"])]) <= MANY]
+    for b in sorted(real, key=lambda b: b["key"]):
+        key = b["key"]
+        if b["id"] in byid:
+            s = byid[b["id"]]
+            shown = "; ".join("%s: %r" % (l, s["out"].get(l)) for l in m["shipped"]) if s["out"] else "(judged on the catalog)"
+            what = ("%s key %r (%s, %d site%s) fails %s; the real sink shows %s"
+                    % (s["kind"], s["key"], s["where"], s["n"], "" if s["n"] == 1 else "s", key, shown))
+            replay = {"site": s, "repro": "go test (overlay harness/i18ntable): the sink of kind %s called with %r in each shipped language" % (s["kind"], s["key"])}
+        elif b["id"] == 0:
+            parts_ = key.split("/")
+            ent = cat.get(parts_[1], {}) if len(parts_) > 1 else {}
+            what = "catalog entry fails %s: %s" % (key, {l: e["s"] for l, e in ent.items()})
+            replay = {"entry": {l: e["s"] for l, e in ent.items()}, "key": key}
+        else:
+            rec = next((json.loads(l) for l in neglines if '"id":%d,' % b["id"] in l), None)
+            what = "NegotiateLanguage(%r) = %r, not a shipped language %s" % (rec and rec["hdr"], rec and rec["reply"], m["shipped"])
+            replay = {"record": rec}
+        chk.violation(key, what, replay)
+
+
+def _replay(chk, sd, path):
+    """Re-judges only the case of a replay file against the current tree: one emitted key (its real sink in every shipped language),
+    one Accept-Language header, or the catalog entries."""
+    rp = json.load(open(path)).get("replay") or {}
+    site = rp.get("site") or rp.get("first_site")
+    rec = rp.get("record")
+    testbin = _build(sd)
+    io, meta = os.path.join(sd, "io.ndjson"), os.path.join(sd, "meta.json")
+    env = dict(os.environ)
+    only = {"kind": site["kind"], "key": site["key"]} if site else {"kind": "-", "key": ""}
+    env.update(VERIF_SRC=vf.REPO, VERIF_OUT=io, VERIF_META=meta, VERIF_SEED=str(vf.SEED), HOME=sd, NO_COLOR="1", VERIF_ONLY=json.dumps(only))
+    env.pop("VERIF_IN", None)
+    if rec:
+        env["VERIF_IN"] = vf.write_ndjson(os.path.join(sd, "hdr.ndjson"), [{"items": rec["items"]}])
+    p = vf.run([testbin, "-test.run", "^TestVerifI18nTable$", "-test.count=1", "-test.timeout=900s"], cwd=sd, env=env, timeout=1000)
+    if p.returncode != 0 or not os.path.exists(io):
+        raise vf.NoVerdict("harness failed (rc=%d)\n%s\n%s" % (p.returncode, p.stdout[-3000:], p.stderr[-2000:]))
+    m = json.load(open(meta))
+    lines = open(io).read().splitlines()
+    sites = [json.loads(l) for l in lines[1:] if l.startswith('{"t":"site"')]
+    neglines = [l for l in lines[1:] if l.startswith('{"t":"neg"')]
+    rt, rep = judge(sd, io, "replay", 900)
+    chk.add_tlc(rt, "contract on the replayed case")
+    report(chk, rep["bad"], sites, json.loads(lines[0])["cat"], neglines, m)
+    chk.cov.update(traces_validated_against_impl=int(rep["judged"]), evaluations=int(rep["judged"]), distinct_nontrivial=len(sites) + len(neglines),
+                   rule="replay of " + path)
+    chk.cov["states"] = max(chk.cov["states"], 1)
+    chk.cov["transitions"] = max(chk.cov["transitions"], 1)
+    chk.sample({"kind": "replayed", "records": [json.loads(l) for l in lines[1:3]]})
+    return chk.finish()
+
+
 def run():
     thorough = vf.TIER == "thorough"
     chk = vf.Check(PROP)
@@ -115,11 +190,14 @@ def run():
         "same placeholders = same set of names ({{name|format}}: the format operators after '|' may differ between languages)",
         "a translation may be absent (documented English fallback); an English text is required",
         "cli.Option descriptions are judged on the catalog with help.go's rule (the key, else 'opt.'+key), not by running help",
-        "Accept-Language headers: every list of <= 2 items (thorough: <= 3) over 12 tags x 6 quality spellings, plus every 3-item list "
-        "over a small alphabet; the statement only requires the reply to be a shipped language or '' (which item wins is not judged)"]
+        "Accept-Language headers: every list of <= 2 items over 12 tags x 6 quality spellings, plus every 3-item list over a smaller "
+        "alphabet (quick 4 tags x 3 spellings, thorough 8 x 4); the statement only requires the reply to be a shipped language or '' (which item wins is not judged)"]
     t0 = time.time()
     stage = lambda what: vf.log("C38 %-34s at %5.1fs" % (what, time.time() - t0))
     T = 3 if thorough else 1
+    if os.environ.get("VERIF_REPLAY"):
+        with vf.scratch() as sd:
+            return _replay(chk, sd, os.environ["VERIF_REPLAY"])
     with vf.scratch() as sd, ThreadPoolExecutor(max_workers=2) as side:
         with ThreadPoolExecutor(max_workers=3) as ex:
             fb = ex.submit(_build, sd)
@@ -248,46 +326,7 @@ def run():
                         "explored beside it violates Holds (POSTCONDITION ControlBites)")
         stage("model runs collected")
         # verdict
-        byid = {s["id"]: s for s in sites}
-        real = [b for b in bad if b["id"] <= SELFTEST and not issyn(b)]
-        # a systemic failure (one clause failing for very many keys at once, e.g. a broken lookup function) is reported once
-        # per (clause, kind, language) with its size and examples instead of once per key
-        def group_of(key):
-            p_ = key.split("/")
-            if p_[0] == "lookup":
-                return "lookup/%s/*/%s" % (p_[1], p_[-1])
-            if p_[0] == "no-text":
-                return "no-text/%s/*" % p_[1]
-            if p_[0] in ("placeholders", "empty-text"):
-                return "%s/*/%s" % (p_[0], p_[-1])
-            return p_[0] + "/*"
-        groups = {}
-        for b in real:
-            groups.setdefault(group_of(b["key"]), []).append(b)
-        for g, bs in sorted(groups.items()):
-            if len(bs) > MANY:
-                ex_ = sorted(set(b["key"] for b in bs))
-                chk.violation(g, "%d keys fail this clause at once, e.g. %s" % (len(ex_), ex_[:6]),
-                              {"count": len(ex_), "keys": ex_[:200], "first_site": byid.get(sorted(bs, key=lambda b: b["key"])[0]["id"])})
-        real = [b for b in real if len(groups[group_of(b["key"])]) <= MANY]
-        for b in sorted(real, key=lambda b: b["key"]):
-            key = b["key"]
-            if b["id"] in byid:
-                s = byid[b["id"]]
-                shown = "; ".join("%s: %r" % (l, s["out"].get(l)) for l in m["shipped"]) if s["out"] else "(judged on the catalog)"
-                what = ("%s key %r (%s, %d site%s) fails %s; the real sink shows %s"
-                        % (s["kind"], s["key"], s["where"], s["n"], "" if s["n"] == 1 else "s", key, shown))
-                replay = {"site": s, "repro": "go test (overlay harness/i18ntable): the sink of kind %s called with %r in each shipped language" % (s["kind"], s["key"])}
-            elif b["id"] == 0:
-                parts_ = key.split("/")
-                ent = cat.get(parts_[1], {}) if len(parts_) > 1 else {}
-                what = "catalog entry fails %s: %s" % (key, {l: e["s"] for l, e in ent.items()})
-                replay = {"entry": {l: e["s"] for l, e in ent.items()}, "key": key}
-            else:
-                rec = next((json.loads(l) for l in neglines if '"id":%d,' % b["id"] in l), None)
-                what = "NegotiateLanguage(%r) = %r, not a shipped language %s" % (rec and rec["hdr"], rec and rec["reply"], m["shipped"])
-                replay = {"record": rec}
-            chk.violation(key, what, replay)
+        report(chk, [b for b in bad if b["id"] <= SELFTEST and not issyn(b)], sites, cat, neglines, m)
         wf_sites = judged - nh - 1
         chk.cov["traces_validated_against_impl"] = judged
         chk.cov["evaluations"] = (wf_sites * len(m["shipped"])) + nh + m["catalog_keys"]
